@@ -317,4 +317,18 @@ impl<F: FixedChannelRegion> FixedChannelPlan<F> {
         mask.copy_from_slice(self.channel_mask.as_ref());
         (mask, self.join_channels.verif_snapshot())
     }
+
+    /// verification hook (read-only): the plan's channel maps and join data rates
+    pub(crate) fn verif_tables(&self) -> std::string::String {
+        fn join(v: &[u32]) -> std::string::String {
+            v.iter().map(|x| std::format!("{}", x)).collect::<std::vec::Vec<_>>().join(",")
+        }
+        std::format!(
+            " up={} down={} joindr={}/{}",
+            join(F::uplink_channels()),
+            join(F::downlink_channels()),
+            F::JOIN_DR_125KHZ as u8,
+            F::JOIN_DR_500KHZ as u8
+        )
+    }
 }
